@@ -486,6 +486,10 @@ def run(ctx):
             else:
                 ctx.ok('C09.4-activity-refresh', kind, 'last_update is assigned on every path through the %s store' % kind, ctx.where(AB, sb))
 
+    from ..families import check_sibling_ctors as _sib
+    ctx.rule('C09.4-assembler-constructors', 'FragmentAssembler::new and ::with_timeout build the same assembler except for the timeout', floor=1)
+    _sib(ctx, P, 'C09.4-assembler-constructors', ASM if 'ASM' in globals() else 'edp_client::fragmentation::FragmentAssembler', ['edp_client::fragmentation::FragmentAssembler::new', 'edp_client::fragmentation::FragmentAssembler::with_timeout'], {'fragment_timeout'})
+
 
 def _rv_places(rv):
     k = rv['k']
